@@ -17,5 +17,21 @@ for i in range(1, 21):
     else:
         out.append(open(plan).read().strip('\n').replace('### %s ' % pid, '### %s (plan, not yet built) ' % pid, 1) + '\n\n')
 out.append('---------------------------------------------------------------------------------------\n\n')
-out.append(open(os.path.join(D, '_tail.md')).read())
+tail = open(os.path.join(D, '_tail.md')).read()
+import json, glob
+rows = ['| seeded change | what it does (needs) | reported by (quick tier) |', '|---|---|---|']
+for d in sorted(glob.glob(os.path.join(V, 'seeded', '*', 'meta.json'))):
+    m = json.load(open(d))
+    name = os.path.basename(os.path.dirname(d))
+    res = m.get('check_results', {})
+    rep = []
+    for tier, pr in res.items():
+        for p_, v in pr.items():
+            if v.get('exit'):
+                kind = 'no-failing-input-found' if any('no-failing-input-found' in x for x in v.get('violations', [])) and not any('no-failing' not in x for x in v.get('violations', [])) else 'replay'
+                rep.append('%s (%s)' % (p_, kind))
+    summ = (m.get('summary', '')[:150] + ' — needs: ' + m.get('needs', '')[:110]).replace('|', '/').replace('\n', ' ')
+    rows.append('| %s | %s | %s |' % (name, summ, ', '.join(sorted(set(rep))) or 'NOT reported'))
+tail = tail.replace('@@SEEDED_TABLE@@', '\n'.join(rows))
+out.append(tail)
 open(os.path.join(V, 'DESIGN.md'), 'w').write(''.join(out))
